@@ -436,6 +436,17 @@ def Covers (order : List Nat) (rows : Nat) : Prop := ∀ n, n < rows → n ∈ o
 def freshChildren (s : Spec κ ν) (maps : List (Dict κ)) : List (Child κ) :=
   addCollectors s (addBodies [] 0 maps) maps.length
 
+/-- number of rows for given lengths -/
+def rowCount (nested zipped : List (κ × Nat)) : Nat := prodLens (nested.map (·.2)) * zipCount zipped
+
+/-- closed form of the number of children after a run: input nodes, one body per row, one
+get-item node per used (key, index), and the collectors of the chosen output form -/
+def childCount (s : Spec κ ν) (nested zipped : List (κ × Nat)) : Nat :=
+  s.bodyInputs.length + rowCount nested zipped
+    + ((nested.map (·.2)).sum + zipped.length * zipCount zipped)
+    + (if s.asDf then rowCount nested zipped + 1
+       else s.outputs.length + (s.zipOn.length + s.iterOn.length))
+
 /-- the lengths `len(data[key])` of a key list -/
 def lensOfCur (cur : Cur κ ν) (keys : List κ) : List (κ × Nat) :=
   keys.map fun k => (k, (listOf cur k).length)
